@@ -285,7 +285,7 @@ func (p *Prog) verifyFunc(fn *ssa.Function, ct *Contract) (fx *Fx, err error) {
 		fx.assume(fin, p.elab(fx, a, post).Scalar())
 	}
 	// frame first: it never needs the proof steps, and the steps' facts would only burden the solver
-	if !ct.NoFrame && !ct.Sweep {
+	if !ct.NoFrame && (!ct.Sweep || ct.HasModifies) {
 		fx.frameObligations(fin, ct, &Env{fx: fx, st: fx.Entry, old: fx.Entry, vars: fx.entryVarsM})
 	}
 	// postconditions, proof steps and lemma instances in the order the contract lists them
@@ -509,6 +509,8 @@ type tableInst struct {
 	Sort *Sort
 }
 
+var provableCtr int
+
 // provable asks the solver whether the current assumptions and path condition entail goal.
 func (fx *Fx) provable(st *State, goal *Term) bool {
 	if goal.IsTrue() {
@@ -531,6 +533,10 @@ func (fx *Fx) provable(st *State, goal *Term) bool {
 	f.WriteString(txt)
 	f.Close()
 	st2, out := runSolver(context.Background(), solvers[0], f.Name(), 5)
+	if d := os.Getenv("GVC_DEBUG_QDIR"); d != "" {
+		provableCtr++
+		os.WriteFile(fmt.Sprintf("%s/q%04d_%s.smt2", d, provableCtr, st2), []byte(txt), 0o644)
+	}
 	if os.Getenv("GVC_DEBUG") != "" && st2 != "unsat" {
 		fmt.Fprintf(os.Stderr, "provable? %s -> %s %.200s\n", goal, st2, out)
 		os.WriteFile("/tmp/gvc_provable.smt2", []byte(txt), 0o644)
